@@ -171,7 +171,13 @@ class DocBuilder:
                 s, ex = self.prop_schema(op, mt, path + [n], depth - 1)
                 props[n] = s
                 any_ex = any_ex or ex
-            return {"type": "object", "properties": props}, any_ex
+            out = {"type": "object", "properties": props}
+            if any_ex and rng.random() < 0.45:
+                # the object property has an example of its own NEXT TO the examples of its members: all of them are examples
+                whole = {next(iter(props)): new("str")}
+                self.want(op, "body", None, mt, path, whole, "body.property.object-example-next-to-member-examples")
+                out["example"] = whole
+            return out, any_ex
         if depth > 0 and r < 0.32:
             props, any_ex = {}, False
             for i in range(rng.randint(1, 2)):
